@@ -1,6 +1,6 @@
 (* C05 — sequentially, the containers refine a plain map plus a set of locked keys. *)
 From Coq Require Import List Arith ZArith.
-From LK Require Import AList Model Inv StepInv PropLemmas Seq DropInv.
+From LK Require Import AList Model Inv StepInv PropLemmas Seq DropInv SeqRefine.
 Import ListNotations.
 
 (* The guard operations (insert, remove, value_mut, try_insert, value_or_insert(_with), value) return and
@@ -38,7 +38,8 @@ Theorem C05_try_fails_when_locked : forall c s a sh k e,
   exists s', seq_lock c s a sh k = ROk s' OTryFail /\
     s_guards s' = s_guards s /\ s_ops s' = s_ops s /\ (forall k', vof s' k' = vof s k') /\
     (forall k', In k' (akeys (s_ents s')) <-> In k' (akeys (s_ents s))) /\
-    (forall k' e', aget k' (s_ents s') = Some e' -> exists e0, aget k' (s_ents s) = Some e0 /\ e_owner e' = e_owner e0).
+    (forall k' e', aget k' (s_ents s') = Some e' -> exists e0, aget k' (s_ents s) = Some e0 /\ e_owner e' = e_owner e0) /\
+    s_gid s' = s_gid s.
 Proof. intros c s a sh k e H. exact (seq_try_fails_when_locked c s a sh k e (reachable_inv c s H)). Qed.
 
 (* Dropping the only guard of a key (no waiter, no other call in flight on it), run to completion: the key
@@ -60,7 +61,31 @@ Proof.
   exact (lock_drop_absent_roundtrip c s a a' sh k (reachable_inv c s H) (reachable_dinv c s H)).
 Qed.
 
-(* The counting and listing calls agree with that model: C04_keys_exact / C04_count_reports_keys. *)
+(* The refinement theorem.  spec (SeqRefine.v) is a plain map key -> option value plus the list of guards
+   naming the locked keys; spec_call is what it does for a complete call (lock with any shape and no limit,
+   any guard operation, drop, count, keys); a history is admissible if every call names an existing guard
+   and no *waiting* acquisition asks for a key the single thread holds itself (try variants may).  Q = the
+   model is between two calls (invariant, nothing in flight), R = same values, same guards.
+   One call: the model's call runs to completion, returns what the spec returns (for count / keys: the
+   number / a duplicate-free list of exactly the keys with a value or locked), and re-establishes Q and R. *)
+Theorem C05_call_refines : forall c s sp a call sp' ospec,
+  Q s -> R s sp -> spec_call sp call = Some (sp', ospec) ->
+  exists s' o, seq_call c s a call = ROk s' o /\ Q s' /\ R s' sp' /\ obs_ok sp call ospec o.
+Proof. exact seq_call_refines. Qed.
+
+(* Whole histories, from the empty container, of any length: every admissible history runs to completion on
+   the model -- no call blocks, fails or panics -- with the observations of the plain map + locked set;
+   afterwards values and guards are the spec's and nothing is in flight. *)
+Theorem C05_history_refines : forall c a calls sp',
+  admissible spec_init calls = Some sp' ->
+  exists s' os, seq_trace c a init calls os s' /\ spec_trace spec_init calls os sp' /\
+    (forall k, vof s' k = sp_val sp' k) /\ s_guards s' = sp_guards sp' /\ s_ops s' = [] /\ Inv s'.
+Proof. exact seq_refinement. Qed.
+
+(* ... and these are the only observations the model can produce for that history. *)
+Theorem C05_history_deterministic : forall c a calls s os1 s1 os2 s2,
+  seq_trace c a s calls os1 s1 -> seq_trace c a s calls os2 s2 -> os1 = os2 /\ s1 = s2.
+Proof. intros c a calls. exact (seq_trace_fun c a calls). Qed.
 
 Example C05_witness :
   exists s, run (mkCfg false)
@@ -69,3 +94,12 @@ Example C05_witness :
   = RunOk s [ONothing; OGuard 0 1 None; OVal (Some 3%Z); OExists; OVal (Some 5%Z); OVal (Some 5%Z); OVal (Some 5%Z);
              OVal (Some 7%Z); OVal (Some 7%Z)].
 Proof. eexists. vm_compute. reflexivity. Qed.
+
+(* non-vacuity of the refinement theorem: an admissible history that uses a failing try, all guard
+   operations, a drop of a valueless key and the counting calls *)
+Example C05_history_witness :
+  exists sp', admissible spec_init
+    [SLock ShAsync 1; SGop 0 (GInsert 5%Z); SLock ShTry 1; SLock ShTryAsync 2; SCount; SDrop 1; SDrop 0;
+     SKeys; SLock ShBlocking 1; SGop 2 GRemove; SDrop 2; SCount] = Some sp' /\
+    sp_guards sp' = [] /\ sp_val sp' 1 = None.
+Proof. eexists. split; [vm_compute; reflexivity|]. split; reflexivity. Qed.
